@@ -1,7 +1,7 @@
 (* Props/C09.v — C09: no peer behaviour wedges the endpoint; link loss ends in a clean, reusable state.
    Theorems only.  Model: Model/Endpoint.v (receive path + session handling). *)
 From SG Require Import Base.Prelude Base.Kinds Spec.E37Session Model.StateMachine Model.Secs2 Model.Frames Model.HsmsRx Model.HsmsSession Model.Endpoint
-  Gen.Machines Proofs.RxProofs Proofs.SessionProofs Proofs.EndpointProofs Gen.SendQueue Model.SendQueue Proofs.SendQueueProofs.
+  Gen.Machines Proofs.RxProofs Proofs.SessionProofs Proofs.EndpointProofs Gen.SendQueue Model.SendQueue Proofs.SendQueueProofs Base.PyRt Gen.RxLoop Proofs.RxLoopProofs.
 Open Scope Z_scope.
 
 (* whatever has arrived - any bytes, cut anywhere - closing the connection in any connected session state leaves the
@@ -42,4 +42,22 @@ Example C09_example :
   let m1 := select_req 7 in
   let m2 := ({| h_system := 9; h_session := 0; h_stream := 1; h_function := 1; h_w := true; h_ptype := 0; h_stype := 0 |}, [1%N; 2%N; 3%N]) in
   map (fun cut => length (whole cut [m1; m2])) [0; 13; 14; 15; 30; 31; 40]%nat = [0; 0; 1; 1; 1; 2; 2]%nat.
+Proof. vm_compute. reflexivity. Qed.
+
+(* The framing loop is tied to the source by a theorem: HsmsProtocol._process_received_data is translated statement by statement on every run
+   (harness/gen_rxloop.py -> Gen/RxLoop.v: the guard, the while loop, peek / unpack / pop, the try around HsmsBlock.decode, the direct hand-over
+   of replies and queue_block; the ByteQueue methods are checked to be plain slices of one bytearray; any other state of the protocol object read
+   or written in the loop stops the translator).  For every buffer, whatever the session state and whoever waits for a reply, one run of it
+   leaves the bytes the model's `drain` leaves and treats the same frames in the same order the same way. *)
+Theorem C09_receive_loop_code_is_model : forall is_data is_reply selected buf,
+  let '(b, _, outs, _) := drain (S (length buf)) buf in
+  let '(b', tr', _) := rx_process frame hframe_decode is_data is_reply selected buf in
+  b' = b /\ map ev_out tr' = outs.
+Proof. exact rx_process_is_drain. Qed.
+Print Assumptions C09_receive_loop_code_is_model.
+Example C09_receive_loop_sample :
+  let f := [0;0;0;10; 0;0;0x81;1;0;0; 0;0;0;7]%N in
+  map ev_out (snd (fst (rx_process frame hframe_decode (fun _ => true) (fun _ => false) true (f ++ [0;0;0;3;9;9;9]%N ++ f ++ [0;0]%N))))
+  = [Delivered {| h_system := 7; h_session := 0; h_stream := 1; h_function := 1; h_w := true; h_ptype := 0; h_stype := 0 |} []; Dropped;
+     Delivered {| h_system := 7; h_session := 0; h_stream := 1; h_function := 1; h_w := true; h_ptype := 0; h_stype := 0 |} []]%Z.
 Proof. vm_compute. reflexivity. Qed.
